@@ -644,11 +644,17 @@ tun_setip(const char *ip, const char *other_ip, int netbits)
 #endif
 #endif
 
+	if (netbits < 0 || netbits > 32) {
+		fprintf(stderr, "Invalid netmask: %d!\n", netbits);
+		return 1;
+	}
+
 	netmask = 0;
 	for (i = 0; i < netbits; i++) {
 		netmask = (netmask << 1) | 1;
 	}
-	netmask <<= (32 - netbits);
+	if (netbits > 0)
+		netmask <<= (32 - netbits);
 	net.s_addr = htonl(netmask);
 
 	/* The addresses end up in a shell command line and may come from the
